@@ -565,38 +565,71 @@ def dedup_key_rule(ctx):
         while e.get("k") == "mcall" and e["m"] in ("to_string", "clone", "to_owned", "as_str", "into") and not e["args"]:
             e = sir.strip_ref(e["recv"])
         return sir.expr_str(e).replace(" ", "")
+    def absent_test(c):
+        """condition `K is not in coll` in any of its spellings -> (coll expr, key expr) or None
+        (`!coll.any(|x| x == K)`, `coll.all(|x| x != K)`, `!coll.contains(&K)`, `coll.find(|x| x == K).is_none()`)"""
+        neg = False
+        while c.get("k") in ("paren",) or (c.get("k") == "unary" and c.get("op") == "!"):
+            if c.get("k") == "unary":
+                neg = not neg
+            c = c["e"]
+        if c.get("k") != "mcall":
+            return None
+        inner = c
+        want_op = None
+        if c["m"] in ("is_none", "is_some") and not c["args"] and c["recv"].get("k") == "mcall" and c["recv"]["m"] in ("find", "position"):
+            if (c["m"] == "is_none") == neg:
+                return None
+            inner = c["recv"]
+            want_op = "=="
+        elif c["m"] == "any" and neg:
+            want_op = "=="
+        elif c["m"] == "all" and not neg:
+            want_op = "!="
+        elif c["m"] == "contains" and neg and c["args"]:
+            coll = c["recv"]
+            while coll.get("k") == "mcall" and coll["m"] in ("iter", "into_iter"):
+                coll = coll["recv"]
+            return coll, c["args"][0]
+        else:
+            return None
+        if not (inner["args"] and inner["args"][0].get("k") == "closure"):
+            return None
+        coll = inner["recv"]
+        while coll.get("k") == "mcall" and coll["m"] in ("iter", "into_iter"):
+            coll = coll["recv"]
+        cl = inner["args"][0]
+        params = [b_ for pp in cl["params"] for b_, _ in sir.pat_bindings(pp)]
+        body = cl["body"]
+        if body.get("k") == "block" and len(body["stmts"]) == 1:
+            body = body["stmts"][0].get("e", body)
+        if not (body.get("k") == "binary" and body.get("op") == want_op):
+            return None
+        key1 = [x for x in (body["l"], body["r"]) if sir.root_expr_name(sir.strip_ref(x)) not in params]
+        if len(key1) != 1:
+            return None
+        return coll, key1[0]
     for f in tc.fns:
         if not f.body or f.module[:1] != ["proc_gen"]:
             continue
         for n in sir.walk(f.body):
-            if n.get("k") != "if" or n["cond"].get("k") != "unary" or n["cond"].get("op") != "!":
+            if n.get("k") != "if":
                 continue
-            c = n["cond"]["e"]
-            if not (c.get("k") == "mcall" and c["m"] == "any" and c["args"] and c["args"][0].get("k") == "closure"):
+            t = absent_test(n["cond"])
+            if t is None:
                 continue
-            coll = c["recv"]
-            while coll.get("k") == "mcall" and coll["m"] in ("iter", "into_iter"):
-                coll = coll["recv"]
-            cl = c["args"][0]
-            params = [b for pp in cl["params"] for b, _ in sir.pat_bindings(pp)]
-            body = cl["body"]
-            if body.get("k") == "block" and len(body["stmts"]) == 1:
-                body = body["stmts"][0].get("e", body)
-            if not (body.get("k") == "binary" and body.get("op") == "=="):
-                continue
-            sides = [body["l"], body["r"]]
-            key1 = [x for x in sides if sir.root_expr_name(sir.strip_ref(x)) not in params]
+            coll, key1 = t
             pushes = [x for x in sir.walk(n["then"]) if x.get("k") == "mcall" and x["m"] == "push" and sir.expr_str(x["recv"]) == sir.expr_str(coll)]
-            if len(key1) != 1 or len(pushes) != 1:
+            if len(pushes) != 1:
                 continue
             k += 1
-            k1, k2 = norm(key1[0]), norm(pushes[0]["args"][0])
+            k1, k2 = norm(key1), norm(pushes[0]["args"][0])
             okk = k1 == k2
             obs.append(ob("C05.mirror/gen/dedup-key/%s/%s" % (f.qual.split("::")[-1], sir.expr_str(coll)), okk, ctx.where(f),
                           "`%s` is searched for `%s` and receives `%s`" % (sir.expr_str(coll), k1, k2) + ("" if okk else ": an entry is skipped because a different value happens to be present"),
                           witness=None if okk else "<c><a slot:v/><b slot:w=\"v\">{{v}}</b></c>: the slot variable of `w` is never declared"))
     if k < 1:
-        obs.append(ob("C05.floor/dedup", False, "proc_gen/tag.rs", "no de-duplicating collection found (floor 1)"))
+        obs.append(ob("C05.mirror/gen/dedup-key", None, "proc_gen/tag.rs", "no `if <key absent from collection> { push(key) }` found in the generator in a form this rule reads: the de-duplication key is not decided for this tree"))
     return obs
 
 
